@@ -127,7 +127,7 @@ func cmdFunc(args []string) int {
 		obs = append(obs, fc.obligations...)
 	}
 	start := time.Now()
-	e.DischargeAll(obs, runtime.NumCPU())
+	e.DischargeAll(obs, workers())
 	bad := 0
 	for _, ob := range obs {
 		fmt.Printf("%-11s %-8s %5dms  %s   [%s] %s\n", ob.Status, ob.Solver, ob.Ms, ob.Name, ob.Pos, ob.Desc)
@@ -202,9 +202,9 @@ func cmdCheck(prop, tier string, rest []string) int {
 	}
 	e := newEngineFromEnv()
 	e.Tier = tier
-	e.Timeout = 10
+	e.Timeout = 25
 	if tier == "thorough" {
-		e.Timeout = 60
+		e.Timeout = 90
 	}
 	fail := func(err error) int {
 		fmt.Fprintf(os.Stderr, "govc: %v\n", err)
@@ -259,7 +259,7 @@ func cmdCheck(prop, tier string, rest []string) int {
 	}
 	lemmaObs := e.lemmaObligations(prop)
 	obs = append(obs, lemmaObs...)
-	e.DischargeAll(obs, runtime.NumCPU())
+	e.DischargeAll(obs, workers())
 
 	// vacuity: the entry of every function (after its preconditions) must be reachable
 	var vacuous []string
@@ -479,4 +479,14 @@ func cmdReplay(path string) int {
 		fmt.Printf("replay test: %s\n", t)
 	}
 	return 0
+}
+
+// workers: the solver processes of one obligation may run three at a time;
+// keep the total near the core count so that wall-clock timeouts stay meaningful.
+func workers() int {
+	n := runtime.NumCPU() / 2
+	if n < 2 {
+		n = 2
+	}
+	return n
 }
